@@ -275,6 +275,7 @@ func runC16(ctx *Ctx) *Result {
 		c16Sequences(ctx, res, w, report)
 		c16SetEvents(ctx, res, w, report)
 		c16Worker(ctx, res, w, report)
+		c16WorkerRich(ctx, res, w, report)
 	}
 	for k, n := range seen {
 		res.Stats["violations_"+k] = n
@@ -511,11 +512,75 @@ func c16Worker(ctx *Ctx, res *Result, w *world.World, report func(int, string, s
 	_ = labels.Everything
 }
 
+// c16WorkerRich: "a reconcile that fails is put back with back-off" observed at the queue for reconciles
+// that do real work (adoption, release, identity update, creates with claims, deletes, rollback renumbering,
+// history truncation, status): every API call of the reconcile in turn is answered with a 500 through the
+// real worker; the key must come back through AddRateLimited and must not be Forgotten.
+func c16WorkerRich(ctx *Ctx, res *Result, w *world.World, report func(int, string, string, interface{})) {
+	for _, e := range c09Directed() {
+		dry := c16RichStep(w, ctx.Seed, e, 0)
+		ncalls := 0
+		for _, c := range dry.Calls {
+			if c.Res != simapi.Events {
+				ncalls++
+			}
+		}
+		for j := 1; j <= ncalls; j++ {
+			rec := c16RichStep(w, ctx.Seed, e, j)
+			var fired *simapi.Call
+			for _, c := range rec.Calls {
+				if c.Injected != "" {
+					fired = c
+				}
+			}
+			if fired == nil {
+				continue
+			}
+			res.Evaluations++
+			res.Stats["failed_working_reconciles_through_worker"]++
+			res.sig(fmt.Sprintf("rich/%s/%s", e.Name, fired.Identity()))
+			var ops []string
+			for _, op := range rec.QOps {
+				ops = append(ops, op.Op)
+			}
+			has := func(op string) bool { return strings.Contains(" "+strings.Join(ops, " ")+" ", " "+op+" ") }
+			absorbed := false
+			for _, c := range rec.Calls {
+				if c.Seq > fired.Seq && c.Identity() == fired.Identity() && c.OK() {
+					absorbed = true
+				}
+			}
+			if absorbed {
+				continue
+			}
+			if !has("addRateLimited") || has("forget") {
+				report(-1, "failure-not-requeued", fmt.Sprintf("scenario %q: %s was answered with a 500 but the worker did not put the key back with back-off (queue ops %v): nothing will retry the work", e.Name, fired.Identity(), ops), nil)
+			}
+		}
+	}
+}
+
+func c16RichStep(w *world.World, seed int64, e c09Entry, nth int) *world.Record {
+	w.ResetLight()
+	r := world.NewRunner(w, seed, world.DefaultCfg())
+	target := e.Build(r)
+	w.Srv.RunGC()
+	w.DeliverAll()
+	w.ResetQueue(world.NS + "/" + target)
+	w.Srv.ClearFaults()
+	if nth > 0 {
+		w.Srv.AddFault(&simapi.Fault{Nth: nth, Kind: "500", Mode: "before"})
+	}
+	rec := w.WorkerStep()
+	w.Srv.ClearFaults()
+	return rec
+}
+
 func init() {
 	register(&Check{Prop: "C16", Level: "exploration", Exhaustive: true,
-		Rule:   "exhaustive over event shapes: kind {add, update, delete, tombstone, tombstone of a non-pod} x owner reference {none, this set, overlapping set, stale UID, other kind, unknown set} (old x new for updates) x label match (old x new) x resourceVersion equal/different x deletionTimestamp x sets present {0, 1, 2 with overlapping selectors} x selector by matchLabels / by matchExpressions only, delivered to the handlers the controller itself registered (captured at AddEventHandler) and observed at the work queue: required ⊆ enqueued ⊆ allowed per a reference model written from the statement; set events: add / delete / tombstone / 9 kinds of update; worker bookkeeping: k in {0,1,2,5,17,24} injected consecutive failures then success through the real processNextWorkItem on a virtual-time queue (NumRequeues counts up, key waits for its back-off, Forget on success); non-trivial = shapes with a required wake-up",
+		Rule:   "exhaustive over event shapes: kind {add, update, delete, tombstone, tombstone of a non-pod} x owner reference {none, this set, overlapping set, stale UID, other kind, unknown set} (old x new for updates) x label match (old x new) x resourceVersion equal/different x deletionTimestamp x sets present {0, 1, 2 with overlapping selectors} x selector by matchLabels / by matchExpressions only, delivered to the handlers the controller itself registered (captured at AddEventHandler) and observed at the work queue: required ⊆ enqueued ⊆ allowed per a reference model written from the statement; set events: add / delete / tombstone / 9 kinds of update; worker bookkeeping: k in {0,1,2,5,17,24} injected consecutive failures then success through the real processNextWorkItem on a virtual-time queue (NumRequeues counts up, key waits for its back-off, Forget on success), and every API call of 14 working reconciles (adoption, release, creates with claims, deletes, renumbering, truncation, status) answered in turn with a 500 through the real worker (AddRateLimited, no Forget); non-trivial = shapes with a required wake-up",
 		Assume: []string{"the work queue is the harness' deterministic virtual-time implementation of workqueue.RateLimitingInterface; the property is about the controller's calls on it", "the sets an event is about have valid selectors; a sibling with an unparsable selector may be present"},
 		Cases:  func(string) int { return 16 }, Run: runC16,
 		Race: runLive("C16"), RaceCases: scenarioCases(16, 160),
-		Floors: []string{"pod_event_shapes", "shapes_with_required_wakeups", "shapes_with_expression_selectors", "shapes_with_malformed_sibling", "event_sequences", "set_event_shapes", "failed_reconciles_through_worker", "successful_reconciles_through_worker"}})
+		Floors: []string{"pod_event_shapes", "shapes_with_required_wakeups", "shapes_with_expression_selectors", "shapes_with_malformed_sibling", "event_sequences", "set_event_shapes", "failed_reconciles_through_worker", "successful_reconciles_through_worker", "failed_working_reconciles_through_worker"}})
 }
